@@ -180,9 +180,11 @@ class Trace:
         self.last_release = {}
 
     # ---------------------------------------------------------------- helpers
-    def V(self, prop, part, msg):
+    def V(self, prop, part, msg, **kw):
         if len(self.violations) < 200:
-            self.violations.append({'prop': prop, 'part': part, 'msg': msg, 't': self.env.now})
+            v = {'prop': prop, 'part': part, 'msg': msg, 't': self.env.now, 'tier_moves': self.tier_moves}
+            v.update(kw)
+            self.violations.append(v)
 
     def count(self, key, n=1):
         self.counts[key] = self.counts.get(key, 0) + n
@@ -321,7 +323,11 @@ class Trace:
         hot = sim.buffer.hot[0]
         cold = sim.buffer.cold[0]
         if hot.current_capacity < 0:
-            self.V('C07', 'hot_negative', f"hot free space {hot.current_capacity} < 0")
+            res_ = [r_ for r_ in self.obs.values() if r_['resident']]
+            joint = len(res_) >= 2 and all(r_['begin_snap']['hot_free_impl'] >= r_['begin_snap']['volume'] for r_ in res_)
+            self.V('C07', 'hot_negative', f"hot free space {hot.current_capacity} < 0 with "
+                   f"{[(n, sum(a for _, a in r_['deposits'])) for n, r_ in self.obs.items() if r_['resident']]} resident",
+                   joint=joint)
         if hot.current_capacity > hot.total_capacity:
             self.V('C07', 'hot_overfull', f"hot free space {hot.current_capacity} > capacity {hot.total_capacity}")
         if cold.current_capacity < 0 or cold.current_capacity > cold.total_capacity:
@@ -830,6 +836,12 @@ def wrap_algorithm(tr, alg):
                         ms = tr.m.get(t.allocated_machine_id)
                         if ms is not None and (ms['alloc'] is not None or ms['promised'] is not None) and free > 0:
                             tr.count('forced_wait_rounds')
+            except Exception:
+                pass
+        if tr.sc['alg']['kind'] == 'batch' and len(workflow_plan.tasks) > 0:
+            try:
+                if not cluster.is_observation_provisioned(workflow_plan.id):
+                    tr.count('provision_refused_rounds')
             except Exception:
                 pass
         if ready > free:
